@@ -765,49 +765,7 @@ func ruleFLD1() Rule {
 					rr.Unk(f, f.Name+"|tracked", f.Pos(), "no parameter or named result of type []*field")
 					continue
 				}
-				f.OwnNodes(func(n ast.Node) bool {
-					switch n := n.(type) {
-					case *ast.AssignStmt:
-						for i, l := range n.Lhs {
-							id, ok := l.(*ast.Ident)
-							if !ok || (info.Uses[id] != tracked && info.Defs[id] != tracked) {
-								continue
-							}
-							key := f.Name + "|" + id.Name + "="
-							if len(n.Rhs) == len(n.Lhs) {
-								r := ast.Unparen(n.Rhs[i])
-								if cl, ok := r.(*ast.CompositeLit); ok && len(cl.Elts) >= 1 {
-									rr.OK(f, key+exprStr(r), n.Pos(), "literal", "non-empty literal")
-								} else if call, ok := r.(*ast.CallExpr); ok && isBuiltinCall(info, call, "append") && len(call.Args) >= 1 && isIdentOf(info, call.Args[0], tracked) {
-									rr.OK(f, key+"append(...)", n.Pos(), "append", "append to itself")
-								} else {
-									rr.Bad(f, key+exprStr(r), n.Pos(), "the field list may become empty here; every fields[len(fields)-1] relies on it being non-empty")
-								}
-							} else if len(n.Rhs) == 1 {
-								call, ok := n.Rhs[0].(*ast.CallExpr)
-								if ok && strings.HasSuffix(calleeName(info, call), ".expandParam") && errCheckedAfter(c.P, info, n) {
-									rr.OK(f, key+"expandParam(...)", n.Pos(), "call", "result of expandParam, error checked before use")
-								} else {
-									rr.Bad(f, key+exprStr(n.Rhs[0]), n.Pos(), "assigned from a call whose error is not checked immediately")
-								}
-							}
-						}
-					case *ast.ReturnStmt:
-						if len(n.Results) == 2 {
-							key := f.Name + "|return " + exprStr(n.Results[0]) + "," + exprStr(n.Results[1])
-							if isNilIdent(info, n.Results[1]) {
-								if isIdentOf(info, n.Results[0], tracked) {
-									rr.OK(f, key, n.Pos(), "tracked", "returns the tracked non-empty list with a nil error")
-								} else {
-									rr.Bad(f, key, n.Pos(), "returns a nil error with a list other than the tracked one")
-								}
-							} else {
-								rr.OK(f, key, n.Pos(), "error", "error return").Trivial = true
-							}
-						}
-					}
-					return true
-				})
+				c.fldCheck(rr, f, tracked, true, 0)
 			}
 			// every use of expand's result follows an error check
 			for _, f := range c.funcsOfPkg("interp", false) {
@@ -831,6 +789,115 @@ func ruleFLD1() Rule {
 				})
 			}
 		}}
+}
+
+// fldCheck is FLD1's analysis of one function for one tracked []*field
+// variable.  With report it records every obligation; without, it answers
+// whether the function - a helper that is handed the list and gives it back -
+// keeps a non-empty list non-empty on every nil-error return.
+func (c *Ctx) fldCheck(rr *core.RuleResult, f *core.Func, tracked types.Object, report bool, depth int) bool {
+	info := f.Info()
+	good := true
+	okf := func(key string, pos token.Pos, how, why string) {
+		if report {
+			rr.OK(f, key, pos, how, why)
+		}
+	}
+	badf := func(key string, pos token.Pos, why string) {
+		good = false
+		if report {
+			rr.Bad(f, key, pos, why)
+		}
+	}
+	// preserving: a call h(…, tracked, …) of a function of the package that keeps the list non-empty
+	preserving := func(call *ast.CallExpr) bool {
+		if depth >= 2 {
+			return false
+		}
+		fo := core.StaticCallee(info, call)
+		if fo == nil {
+			return false
+		}
+		h := c.P.FuncOf(fo)
+		if h == nil || h.Pkg != f.Pkg || h.Body == nil || h.Decl == nil || h.Type.Params == nil {
+			return false
+		}
+		k := 0
+		for _, fld := range h.Type.Params.List {
+			for _, nm := range fld.Names {
+				if k < len(call.Args) && isIdentOf(info, call.Args[k], tracked) {
+					if o := h.Info().Defs[nm]; o != nil && o.Type().String() == tracked.Type().String() {
+						key := fmt.Sprintf("fldCheck:%s:%d", h.Name, k)
+						if v, ok := c.cache[key]; ok {
+							return v.(bool)
+						}
+						c.cache[key] = false
+						r := c.fldCheck(rr, h, o, false, depth+1)
+						c.cache[key] = r
+						return r
+					}
+				}
+				k++
+			}
+		}
+		return false
+	}
+	f.OwnNodes(func(n ast.Node) bool {
+		switch n := n.(type) {
+		case *ast.AssignStmt:
+			for i, l := range n.Lhs {
+				id, ok := l.(*ast.Ident)
+				if !ok || (info.Uses[id] != tracked && info.Defs[id] != tracked) {
+					continue
+				}
+				key := f.Name + "|" + id.Name + "="
+				if len(n.Rhs) == len(n.Lhs) {
+					r := ast.Unparen(n.Rhs[i])
+					if cl, ok := r.(*ast.CompositeLit); ok && len(cl.Elts) >= 1 {
+						okf(key+exprStr(r), n.Pos(), "literal", "non-empty literal")
+					} else if call, ok := r.(*ast.CallExpr); ok && isBuiltinCall(info, call, "append") && len(call.Args) >= 1 && isIdentOf(info, call.Args[0], tracked) {
+						okf(key+"append(...)", n.Pos(), "append", "append to itself")
+					} else if call, ok := r.(*ast.CallExpr); ok && preserving(call) {
+						okf(key+exprStr(call.Fun)+"(...)", n.Pos(), "helper", "a helper that only appends to the list it is handed")
+					} else {
+						badf(key+exprStr(r), n.Pos(), "the field list may become empty here; every fields[len(fields)-1] relies on it being non-empty")
+					}
+				} else if len(n.Rhs) == 1 {
+					call, ok := n.Rhs[0].(*ast.CallExpr)
+					if ok && (strings.HasSuffix(calleeName(info, call), ".expandParam") || preserving(call)) && errCheckedAfter(c.P, info, n) {
+						okf(key+exprStr(call.Fun)+"(...)", n.Pos(), "call", "result of a function that keeps the list non-empty, error checked before use")
+					} else {
+						badf(key+exprStr(n.Rhs[0]), n.Pos(), "assigned from a call whose error is not checked immediately")
+					}
+				}
+			}
+		case *ast.ReturnStmt:
+			switch len(n.Results) {
+			case 2:
+				key := f.Name + "|return " + exprStr(n.Results[0]) + "," + exprStr(n.Results[1])
+				if isNilIdent(info, n.Results[1]) {
+					if isIdentOf(info, n.Results[0], tracked) {
+						okf(key, n.Pos(), "tracked", "returns the tracked non-empty list with a nil error")
+					} else {
+						badf(key, n.Pos(), "returns a nil error with a list other than the tracked one")
+					}
+				} else if report {
+					rr.OK(f, key, n.Pos(), "error", "error return").Trivial = true
+				}
+			case 1:
+				if !report { // a helper returning only the list
+					if call, ok := ast.Unparen(n.Results[0]).(*ast.CallExpr); ok && isBuiltinCall(info, call, "append") && len(call.Args) >= 1 && isIdentOf(info, call.Args[0], tracked) {
+						return true
+					}
+					if !isIdentOf(info, n.Results[0], tracked) {
+						good = false
+					}
+				}
+			}
+		}
+		return true
+	})
+	return good
 }
 
 func isIdentOf(info *types.Info, e ast.Expr, o types.Object) bool {
